@@ -110,6 +110,7 @@ class Task(object):
         self.sock = sock
         self.out = Outcome()
         self.want = None   # last yielded value
+        self.evlog = None  # optional list receiving ("yield", v) events
 
 
 def run_tasks(tasks, pipes, max_steps=200000, on_idle=None):
@@ -121,6 +122,7 @@ def run_tasks(tasks, pipes, max_steps=200000, on_idle=None):
     steps = 0
     while True:
         progressed = False
+        act0 = sum(t.sock.activity for t in tasks)
         live = [t for t in tasks if not t.out.done]
         if not live:
             return "done"
@@ -149,6 +151,8 @@ def run_tasks(tasks, pipes, max_steps=200000, on_idle=None):
                     CTX.cur = "-"
                 steps += 1
                 t.out.steps += 1
+                if t.evlog is not None:
+                    t.evlog.append(("yield", v))
                 if steps > max_steps:
                     return "steps"
                 if t.want != v:
@@ -167,6 +171,8 @@ def run_tasks(tasks, pipes, max_steps=200000, on_idle=None):
             for p in pipes:
                 if p.transfer():
                     progressed = True
+        if sum(t.sock.activity for t in tasks) != act0:
+            progressed = True
         if not progressed:
             moved = False
             for p in pipes:
